@@ -440,6 +440,18 @@ class Stmts(Calls):
         if isinstance(it, tuple):
             return len(it), (lambda i: it[i])
         if isinstance(it, V) and it.ty.kind in ('list',):
+            t = it.t
+            if z3.is_app(t) and t.decl().kind() == z3.Z3_OP_SEQ_EXTRACT:
+                # a slice s[a:a+n]: iterate over the base sequence so that facts are stated about s itself
+                base, off, ln = t.arg(0), z3.simplify(t.arg(1)), z3.simplify(t.arg(2))
+                blen = z3.Length(base)
+                if self.entails(st, z3.And(off >= 0, ln >= 0, off + ln <= blen)):
+                    n_eff = ln
+                else:
+                    n_eff = z3.simplify(z3.If(z3.And(off >= 0, off <= blen, ln > 0), z3.If(off + ln > blen, blen - off, ln), 0))
+                if z3.is_int_value(off) and off.as_long() == 0:
+                    return n_eff, (lambda i: V(base[self.term(i, INT)], it.ty.args[0]))
+                return n_eff, (lambda i: V(base[off + self.term(i, INT)], it.ty.args[0]))
             return z3.Length(it.t), (lambda i: V(it.t[self.term(i, INT)], it.ty.args[0]))
         if isinstance(it, V) and it.ty.kind == 'bytes':
             return z3.Length(it.t), (lambda i: V(z3.BV2Int(it.t[self.term(i, INT)]), INT))
@@ -548,7 +560,11 @@ class Stmts(Calls):
         body_st.trace.append("L%s:loop-body" % node.lineno)
         exits = []      # break paths
         if is_for:
-            entry = list(self.assign(node.target, f(V(i, INT)), body_st))
+            elem = f(V(i, INT))
+            for x in (elem if isinstance(elem, tuple) else (elem,)):
+                if isinstance(x, V) and x.ty.kind in ('cls', 'tuple', 'opt'):
+                    self.assume_valid(x, body_st)
+            entry = list(self.assign(node.target, elem, body_st))
         else:
             entry = []
             for s, v in self.ev(node.test, body_st):
@@ -685,6 +701,8 @@ class Stmts(Calls):
         sub = st.fork()
         base = len(sub.pc)
         sub.stack.append(Frame({}, len(sub.stack) - 1, sub.frame.globs, sub.frame.qualname))
+        if isinstance(idx, V):
+            sub.bound = list(st.bound) + [idx.t]
         res = []
         for s, c in self.assign(target, f(idx), sub):
             if c is not None:
